@@ -9,13 +9,17 @@ META = {
                  "regenerated from the source by the translator), of the BLS combination index and of the sigtree aggregation "
                  "tree; differential correspondence of the real Go code (real ed25519 / blst) against the model evaluated with "
                  "vm_compute in coqc, plus a Coq monitor of the set-union specification evaluated on the implementation's observations",
-    "level": "Full for the simple scheme: merge/merge-sparse = verified set union (monotone, idempotent, order irrelevant), exact "
-             "merge flags, no bit without a valid signature over all operation sequences, sparse round-trip, finalize/validate "
-             "round-trip with double-signer detection, totality (no panic) for arbitrary sparse/finalized input with a non-empty "
-             "trusted key list. BLS: see level_note.",
+    "level": "Full for the simple scheme: MergeSparse = verified set union with exact flags and no panic (merge_sparse_spec, "
+             "union, monotone, idempotent, order irrelevant), no bit without a valid signature as an invariant over all operation "
+             "sequences (AddSignature, Merge, MergeSparse, Clone, Derive), sparse round-trip, ValidateFinalizedProof total for a "
+             "non-empty trusted key list; generated key-id guards proved equal to their spec. Full for the BLS combination index "
+             "(decode_encode, encode_lt_binom, decode_total_iff, decode_sound). Partial: finalize/validate round-trip and the flags "
+             "of full Merge are decided by the Coq monitor on the implementation and by correspondence, not by a general theorem; "
+             "the BLS aggregation tree (sigtree) and BLS proof merging are not modelled.",
     "note": "Trusted: Coq kernel, translator (cross-checked by the correspondence run), ideal-signature convention (DESIGN 3), "
-            "bits-and-blooms/bitset, Go harness and generators. Clone independence is an aliasing property decided by the "
-            "correspondence run and the monitor only.",
+            "bits-and-blooms/bitset, math/big.Binomial, blst, Go harnesses and generators. Clone independence is an aliasing "
+            "property decided by the correspondence run and the monitor only. Two defects fixed in the repo worktree (simple "
+            "MergeSparse key-id length, BLS finalized key-id range); reverting either makes the check exit 1 with a replay.",
     "design_ref": "DESIGN.md 4 (C13)",
 }
 
@@ -431,9 +435,11 @@ def run_bls(c):
         if kind == 0:
             k = 0
         elif kind == 1:
-            idx = comb(n, k) + rng.below(300)
+            idx = comb(n, k) + rng.choice([0, 0, 1, rng.below(300)])   # boundary: exactly C(n,k)
         elif kind == 2:
             k = n + 1
+        elif kind == 4:
+            idx = comb(n, k) - 1
         idb = [k >> 8, k & 255] + (list(idx.to_bytes((idx.bit_length() + 7) // 8, "big")) if idx else [])
         if kind == 3:
             idb = idb[:rng.below(2)]
@@ -471,10 +477,10 @@ def run_bls(c):
         for name in ("enc_bad", "dec_bad"):
             mm = re.search(name + r"\s*=\s*\[(.*?)\]", cout, flags=re.S)
             corr += [int(x) for x in re.findall(r"\d+", mm.group(1))] if mm else [-1]
-    for i, line, r, want in spec_bad[:2]:
+    for i, line, r, want in spec_bad[:1]:
         c.report("bls-combindex-" + line.split()[0], "real combination index function disagrees with the combinatorial number system: "
                  "`%s` returned %s, expected %s" % (line, r, want), {"input": line, "observed": r, "how": "echo '%s' | bin/h_c13bls" % line})
-    for i, line in vfp_panics[:2]:
+    for i, line in vfp_panics[:1]:
         c.report("bls-validate-finalized-panic", "real gblsminsig ValidateFinalizedProof panics on the main key id of `%s`" % line,
                  {"input": line, "observed": "panic", "how": "echo '%s' | bin/h_c13bls" % line})
     if corr and not (spec_bad or vfp_panics):
